@@ -680,7 +680,11 @@ class Audit:
                 self.check_head(sp, code, self.rng.randint(10 ** 6, 10 ** 9))
 
 
-FULL_RUNS = [("NZL", "milk_cattle_head", 8000000, 96, "continued"), ("ARG", "meat_cattle_head", 30000000, 96, "continued"),
+FULL_RUNS = [("NZL", "milk_cattle_head", 8000000, 96, "continued"),
+             # several head-count overrides in NON-alphabetical order with distinct values: each must land on its own species
+             ("ARG", {"pig_head": 1000000, "meat_cattle_head": 30000000, "chicken_head": 50000000}, None, 96, "continued"),
+             ("NZL", {"milk_cattle_head": 7000000, "meat_sheep_head": 9000000, "chicken_head": 11000000, "horse_head": 123456}, None, 72,
+              "long_delayed_shutoff"),
              ("IND", "milk_buffalo_head", 20000000, 72, "long_delayed_shutoff"), ("USA", "pig_head", 40000000, 84, "continued")]
 
 
@@ -691,7 +695,9 @@ def check_full_run(a, iso, sp, value, nmonths, shutoff):
     import src.food_system.animal_populations as ap
     import src.optimizer.parameters as par
     runutil.redirect_results()
-    opt = runutil.option(NMONTHS=nmonths, shutoff=shutoff, **{sp: value})
+    wanted = dict(sp) if isinstance(sp, dict) else {sp: value}
+    opt = runutil.option(NMONTHS=nmonths, shutoff=shutoff)
+    opt.update(wanted)   # insertion order = the order written by the user
     rnd = [0]
     calls = []
     names = {1: "compute_parameters_first_round", 2: "compute_parameters_second_round", 3: "compute_parameters_third_round"}
@@ -710,10 +716,12 @@ def check_full_run(a, iso, sp, value, nmonths, shutoff):
     orig_fn = orig_static.__func__ if isinstance(orig_static, staticmethod) else orig_static
 
     def rec(stock, attrs):
-        try:
-            seen = float(stock[sp])
-        except Exception:
-            seen = None
+        seen = {}
+        for c in wanted:
+            try:
+                seen[c] = float(stock[c])
+            except Exception:
+                seen[c] = None
         calls.append((rnd[0], seen, str(stock.name)))
         return orig_fn(stock, attrs)
     for k, n in names.items():
@@ -736,10 +744,11 @@ def check_full_run(a, iso, sp, value, nmonths, shutoff):
     for k, seen, label in calls:
         per_round[k] = per_round.get(k, 0) + 1
         a.cnt("F_animal_model_calls", False)
-        if seen != float(value):
+        wrong = {c: seen[c] for c in wanted if seen[c] != float(wanted[c])}
+        if wrong:
             a.fail(f"C13:head-override-lost@parameters.{names.get(k, 'outside_rounds')}:round{k}",
-                   f"{iso} {sp}={value} ({nmonths} months, shutoff {shutoff}): the animal model built in round {k} reads "
-                   f"{sp}={seen} from row {label} - the override did not reach it", "fullrun", inp)
+                   f"{iso} options {wanted} (in this order; {nmonths} months, shutoff {shutoff}): the animal model built in round {k} "
+                   f"reads {wrong} from row {label} - the override did not reach the species it names", "fullrun", inp)
     a.obs.setdefault("full_runs", []).append({"run": inp, "animal_model_calls_per_round": per_round, "error": err})
     return per_round, err
 
@@ -1022,6 +1031,70 @@ def check_override_run(a, iso, nmonths, shutoff, extras):
                                                   "meat_and_dairy_rounds": [k for k, _ in kg_used], "error": err})
 
 
+def check_yaml_driver(a, config):
+    """the REAL run_scenarios_from_yaml driver with the per-simulation model run stubbed: every simulation must receive
+    exactly its own YAML entry (+ NMONTHS from the settings), and the constants derived from what it receives must equal
+    those derived from its own entry alone"""
+    import src.scenarios.run_scenarios_from_yaml as drv
+    original = copy.deepcopy(config)
+    received = []
+
+    class Stub:
+        def run_model_no_trade(self, **kw):
+            received.append({"title": kw.get("title"), "options": copy.deepcopy(kw.get("scenario_option")),
+                             "countries": copy.deepcopy(kw.get("countries_list"))})
+    orig_cls = drv.ScenarioRunnerNoTrade
+    drv.ScenarioRunnerNoTrade = Stub
+    err = None
+    try:
+        with quiet():
+            drv.run_scenarios_from_yaml(config, False, False, False)
+    except BaseException as e:
+        err = classify(e) + ": " + str(e)[:100]
+    finally:
+        drv.ScenarioRunnerNoTrade = orig_cls
+    a.cnt("K_yaml_configs")
+    inp = {"config": original}
+    sims = list(original["simulations"].items())
+    if err or len(received) != len(sims):
+        a.fail("C13:yaml-driver-failed@run_scenarios_from_yaml", f"driver error {err}; {len(received)} of {len(sims)} simulations run",
+               "yaml", inp)
+        return
+    iso = original["settings"]["countries"][0]
+    row = a.row(iso)
+    for i, ((name, entry), got) in enumerate(zip(sims, received)):
+        a.cnt("K_yaml_simulations", False)
+        want = dict(entry)
+        want["NMONTHS"] = original["settings"]["NMONTHS"]
+        extra = {k: got["options"][k] for k in got["options"] if k not in want}
+        differ = {k: (got["options"].get(k, "<absent>"), v) for k, v in want.items() if got["options"].get(k, "<absent>") != v}
+        if extra or differ:
+            carried = {k: v for k, v in extra.items() if any(k in dict(e) for _, e in sims[:i])}
+            detail = ""
+            r_got = dispatch(list(got["options"].items()), row)
+            r_own = dispatch(list(want.items()), row)
+            if r_got["ok"] and r_own["ok"]:
+                d = flat_diff(deep_flat(r_own["cp"]), deep_flat(r_got["cp"]))
+                detail = f"; constants for this simulation [path, own entry alone, as run] {d[:4]}"
+            a.fail("C13:option-carried-over-between-simulations@run_scenarios_from_yaml",
+                   f"simulation {i + 1} ('{name}') of the YAML receives options that are not in its own entry: {extra} "
+                   f"(carried over from an earlier simulation: {sorted(carried)}); entries that differ: {differ}{detail}", "yaml",
+                   {**inp, "simulation": name})
+
+
+def yaml_configs():
+    import runutil
+    base = {k: v for k, v in runutil.BASE_OPTION.items() if k != "NMONTHS"}
+    s1 = dict(base, title="with overrides", CROP_PRODUCTION_MULTIPLIER=0.5, RATIO_STOCKS_UNTOUCHED=0.25,
+              MINIMUM_PERCENT_FED_BEFORE_NONHUMAN_CONSUMPTION_ALLOWED=40, kg_meat_per_large_animal=300.5, pig_head=123456)
+    s2 = dict(base, title="plain", scenario="seaweed", shutoff="continued")
+    s3 = dict(base, title="other overrides", GRASSES_PRODUCTION_MULTIPLIER=2, chicken_head=777)
+    s4 = dict(base, title="plain again", cull="dont_eat_culled")
+    return [{"settings": {"NMONTHS": 96, "countries": ["NZL"]}, "simulations": {"a": s1, "b": s2, "c": s3, "d": s4}},
+            {"settings": {"NMONTHS": 72, "countries": ["ARG"]}, "simulations": {"only": copy.deepcopy(s2), "then": copy.deepcopy(s1),
+                                                                                 "last": copy.deepcopy(s4)}}]
+
+
 def species_columns():
     t = pd.read_csv("data/no_food_trade/animal_feed_data/FAOSTAT_head_and_slaughter.csv", nrows=1)
     return [c for c in t.columns if c.endswith("_head")]
@@ -1043,6 +1116,8 @@ def run(payload):
             a.check_head(inp["species"], inp["code"], inp["value"])
         elif chk == "doc":
             a.check_doc(inp["fam"], inp["val"])
+        elif chk == "yaml":
+            check_yaml_driver(a, inp["config"])
         elif chk == "history":
             check_call_history(a, inp["history"])
         elif chk == "overriderun":
@@ -1080,6 +1155,8 @@ def run(payload):
     a.part_E(species, codes)
     for fr in (FULL_RUNS[:2] if quick else FULL_RUNS):
         check_full_run(a, *fr)
+    for cfg in yaml_configs():
+        check_yaml_driver(a, cfg)
     for orun in (OVERRIDE_RUNS[:2] if quick else OVERRIDE_RUNS):
         check_override_run(a, *orun)
     return {"failures": a.failures, "counts": a.counts, "observations": a.obs, "distinct": a.distinct,
